@@ -63,6 +63,9 @@ def space(tier, seed):
             for k in (None, 1, 2):
                 for inner in ("max2", "unc"):
                     items.append({"net": "N2", "sessions": ss, "k": k, "recompute": [], "inner": inner, "sched": INNER[inner], "period": 5, "two_phase": b["a"]})
+                    if k == 1:
+                        # ... and with a deep copy of the simulator taken between the two stages, both carried on
+                        items.append({"net": "N2", "sessions": ss, "k": k, "recompute": [], "inner": inner, "sched": INNER[inner], "period": 5, "two_phase": b["a"], "deepcopy_mid": True})
                     # ... and with the limit of the last-added constraint changed between the two runs
                     # (update_constraint under the same name: ids and shapes stay, only the numbers move)
                     items.append({"net": "N2", "sessions": ss, "k": k, "recompute": [], "inner": inner, "sched": INNER[inner], "period": 5, "two_phase": b["a"], "edit": EDIT_LIMIT})
@@ -414,6 +417,27 @@ def execute(scn):
             except Exception as exc:
                 guard(exc)
                 out("deepcopy:exception:%s" % type(exc).__name__, "running a deep copy of the simulator raised %r" % (exc,), repr(exc), None)
+    if scn.get("deepcopy_mid"):
+        import copy
+
+        with warnings.catch_warnings():
+            warnings.simplefilter("ignore")
+            orig, rec_o, evs_o, _ = S.build_sim(scn, monitor=False)
+            try:
+                orig.run()  # first stage
+                twin = copy.deepcopy(orig)  # a snapshot taken while the simulation is under way
+                later_twin = copy.deepcopy(rec_o.later)
+                twin.event_queue.add_events(later_twin)
+                twin.run()  # the copy finishes FIRST; the original still stands at the end of its first stage
+                stage1 = orig.iteration
+                orig.event_queue.add_events(rec_o.later)
+                orig.run()
+                for who, x in (("copy", twin), ("original", orig)):
+                    if not (np.array_equal(x.charging_rates, sim.charging_rates) and np.array_equal(x.pilot_signals, sim.pilot_signals) and S.events_key(x) == S.events_key(sim)):
+                        out("deepcopy-midrun:%s-differs" % who, "a deep copy taken between two stages of a run: the %s does not reproduce the simulation (each scheduler must observe its own simulator)" % who, np.array(x.charging_rates).tolist(), np.array(sim.charging_rates).tolist())
+            except Exception as exc:
+                guard(exc)
+                out("deepcopy-midrun:exception:%s" % type(exc).__name__, "deep copy between two stages raised %r" % (exc,), repr(exc), None)
     sim2, rec2, evs2, periods2, log2, _, err2 = one_run(scn, mutate=True)
     if err2 is not None:
         out("mutating:exception:%s" % type(err2).__name__, "run with the mutating scheduler raised %r" % err2, repr(err2), None)
